@@ -33,7 +33,7 @@ LEVEL_NOTE = ("Catalogue-bounded: cycle kinds outside the listed seven are not g
 
 SHAPES = ["use", "extends_same", "extends_cross", "submodule", "submodule_direct", "pointer", "pointer_cross",
           "associate",
-          "tbp", "proc_interface", "include", "include_scoped", "include_mixed", "ppinclude", "interface_proc", "use_only_rename"]
+          "tbp", "proc_interface", "include", "include_scoped", "include_mixed", "ppinclude", "interface_proc", "use_only_rename", "func_result"]
 CLOSURES = ["startup", "last_open", "edit_save", "break_reclose", "touch_each"]
 
 
@@ -186,6 +186,22 @@ def build(shape, L, tag):
                  f"end module mpi_{T}"]
         f[f"pi_{T}.f90"] = "\n".join(body) + "\n"
         brk = (f"pi_{T}.f90", f"    procedure(pf{nxt(0, L)}_{T}) :: f", "    external :: f")
+    elif shape == "func_result":
+        # functions whose result is a procedure pointer declared with the function itself (or the next
+        # function of a ring) as interface, and member accesses / ASSOCIATE names based on their calls
+        body = [f"module mfr_{T}", "  implicit none", "contains"]
+        for i in range(L):
+            j = nxt(i, L)
+            body += [f"  function nf{i}_{T}(n) result(res)", "    integer :: n",
+                     f"    procedure(nf{j}_{T}), pointer :: res", f"    res => nf{j}_{T}", "  end function"]
+        body += [f"  function slf_{T}(n) result(r)", "    integer :: n", f"    procedure(slf_{T}), pointer :: r => slf_{T}",
+                 "  end function",
+                 f"  function nam_{T}(n)", "    integer :: n", f"    procedure(nam_{T}), pointer :: nam_{T}", "  end function",
+                 f"  subroutine drv_{T}()", "    integer :: i", f"    i = nf0_{T}(3)%i + slf_{T}(2)%y%z",
+                 f"    associate (q_{T} => nf0_{T}(1), w_{T} => slf_{T}(1)%a)", f"      print *, q_{T}%x, w_{T}%b, nam_{T}(1)%c",
+                 "    end associate", f"    call nf0_{T}(1)%go()", "  end subroutine", f"end module mfr_{T}"]
+        f[f"fr_{T}.f90"] = "\n".join(body) + "\n"
+        brk = (f"fr_{T}.f90", f"    procedure(nf{nxt(0, L)}_{T}), pointer :: res", "    integer, pointer :: res")
     elif shape == "pointer_cross":
         for i in range(L):
             j = nxt(i, L)
